@@ -73,3 +73,16 @@ Theorem C11_contact_force :
     (forall k, (Z.to_nat dim <= k < 6)%nat -> nth k r 0 = 0).
 Proof. exact contact_force_elliptic. Qed.
 Print Assumptions C11_contact_force.
+
+(* non-vacuity: the composition of Props/C12.v's example (equality, friction-loss, limit rows and an
+   elliptic contact of dimension 3) also has positive efc_D and non-zero friction coefficients *)
+Example C11_hyp_example :
+  let rows : list (@rowdesc R) :=
+    [(2, / 2, 0, 0%Z, 0%Z); (4, / 4, 3, 1%Z, 0%Z); (5, / 5, 0, 3%Z, 0%Z);
+     (8, / 8, 0, 7%Z, 0%Z); (8, / 8, 0, 7%Z, 0%Z); (2, / 2, 0, 7%Z, 0%Z)] in
+  D_pos rows /\ cu_fr_nonzero 6 1 1 [(3%Z, / 2, [/ 2; / 4; 1; 1; 1])] 0 rows.
+Proof.
+  cbv zeta. split.
+  - unfold D_pos. repeat constructor; simpl; lra.
+  - simpl. repeat split; repeat constructor; lra.
+Qed.
